@@ -6,7 +6,7 @@
    otherwise placement, any sharing of predicates, any number of targets), all declared
    defaults and all environments (predicate values, data values, register values). *)
 From Coq Require Import ZArith List Bool.
-From PyRTL Require Import Front.Cond Front.CondSpec Front.CondProofs.
+From PyRTL Require Import Front.Cond Front.CondSpec Front.CondProofs Front.CondWidth.
 Import ListNotations.
 Open Scope Z_scope.
 
@@ -103,6 +103,66 @@ Theorem C07_multi_cycle_registers : forall prog d res,
 Proof. exact run_agree. Qed.
 Print Assumptions C07_multi_cycle_registers.
 
+(* 8. Misuse that must raise.  (a) `|=` directly under conditional_assignment, outside any `with`;
+      (b) an assignment directly inside a top-level `with otherwise:` that closes no chain -- it is the
+      first branch of the block or directly follows another otherwise (chain_empty_before);
+      (c) in general any assignment whose path condition is empty.  An otherwise that is first / repeated
+      but does not assign directly is legal for the code and for the model (theorem 3 is the exact
+      characterisation). *)
+Theorem C07_rejects_unguarded : forall prog d l,
+  In (l, []) (slits prog) -> elab prog d = None.
+Proof. exact rejects_unguarded. Qed.
+Print Assumptions C07_rejects_unguarded.
+
+Theorem C07_top_level_assignment_rejected : forall pre t r post d,
+  elab (pre ++ Assign t r :: post) d = None.
+Proof. exact top_level_assign_rejected. Qed.
+Print Assumptions C07_top_level_assignment_rejected.
+
+Theorem C07_top_level_memory_assignment_rejected : forall pre m a dd e post d,
+  elab (pre ++ MemAssign m a dd e :: post) d = None.
+Proof. exact top_level_memassign_rejected. Qed.
+Print Assumptions C07_top_level_memory_assignment_rejected.
+
+Theorem C07_dangling_otherwise_assignment_rejected : forall pre bpre t r bpost post d,
+  chain_empty_before pre ->
+  elab (pre ++ Otherwise (bpre ++ Assign t r :: bpost) :: post) d = None.
+Proof. exact dangling_otherwise_assign_rejected. Qed.
+Print Assumptions C07_dangling_otherwise_assignment_rejected.
+
+Theorem C07_dangling_otherwise_memory_assignment_rejected : forall pre bpre m a dd e bpost post d,
+  chain_empty_before pre ->
+  elab (pre ++ Otherwise (bpre ++ MemAssign m a dd e :: bpost) :: post) d = None.
+Proof. exact dangling_otherwise_memassign_rejected. Qed.
+Print Assumptions C07_dangling_otherwise_memory_assignment_rejected.
+
+Theorem C07_chain_empty_cases : chain_empty_before [] /\
+  (forall pre b, chain_empty_before (pre ++ [Otherwise b])).
+Proof. exact (conj chain_empty_first chain_empty_after_otherwise). Qed.
+
+(* 9. Predicates wider than one bit.  elab_w mirrors _push_condition's guard (checked when the `with`
+      is entered).  Entering a `with` on a multi-bit wire anywhere raises; the width check commutes out
+      of the state machine, so an accepted program has only 1-bit predicates and theorems 1-7 apply. *)
+Theorem C07_multibit_predicate_rejected : forall pw prog d t,
+  In t prog -> has_wide pw t -> elab_w pw prog d = None.
+Proof. exact wide_predicate_rejected. Qed.
+Print Assumptions C07_multibit_predicate_rejected.
+
+Theorem C07_width_check_commutes : forall pw prog d,
+  elab_w pw prog d = if forest_w1 pw prog then elab prog d else None.
+Proof. exact elab_w_char. Qed.
+Print Assumptions C07_width_check_commutes.
+
+Theorem C07_rejects_iff_with_widths : forall pw prog d,
+  elab_w pw prog d = None <-> spec_accepts_w pw prog = false.
+Proof. exact elab_w_none_iff. Qed.
+Print Assumptions C07_rejects_iff_with_widths.
+
+Theorem C07_accepted_with_widths : forall pw prog d res,
+  elab_w pw prog d = Some res -> forest_w1 pw prog = true /\ elab prog d = Some res.
+Proof. exact elab_w_some. Qed.
+Print Assumptions C07_accepted_with_widths.
+
 (* ---- non-vacuity: the docstring example of conditional.py extended with a memory, a nested
    otherwise and a chain restarted after an otherwise *)
 Definition ex_prog : list ctree :=
@@ -147,6 +207,18 @@ Example C07_example_run :
       (fun p => (p =? 2) || (p =? 1), fun r => 300 + r) ] [0; 5; 6]
   = [[0; 5; 113]; [0; 210; 230]; [0; 312; 312]].
 Proof. vm_compute. reflexivity. Qed.
+
+(* a 2-bit predicate (p1) deep inside an otherwise: rejected although nothing is assigned under it;
+   the same program with 1-bit predicates is accepted *)
+Example C07_example_multibit :
+  elab_w (fun p => if p =? 1 then 2 else 1) [ With 0 [ Assign (TWire 0) 1 ]; Otherwise [ With 1 [] ] ] [] = None /\
+  (exists res, elab_w (fun _ => 1) [ With 0 [ Assign (TWire 0) 1 ]; Otherwise [ With 1 [] ] ] [] = Some res).
+Proof. split; [vm_compute; reflexivity|eexists; vm_compute; reflexivity]. Qed.
+
+(* otherwise first / two otherwise in a row WITHOUT a direct assignment are accepted *)
+Example C07_example_otherwise_first_is_legal :
+  (exists res, elab [ Otherwise [ With 0 [ Assign (TWire 0) 1 ] ]; Otherwise []; Otherwise [ With 1 [] ] ] [] = Some res).
+Proof. eexists; vm_compute; reflexivity. Qed.
 
 (* rejected: a chain restarted after an otherwise re-assigns the same wire; an assignment
    under a top-level otherwise only; an assignment under no predicate at all *)
